@@ -14,6 +14,7 @@ type EngProfile struct {
 	Faults      bool // enumerate failing storage-call positions
 	DepthGrid   bool // run every (r, g, w) of a grid
 	NoNeg       bool
+	Conforming  bool // stores conform to the declared types (tuples only on related relations, subjects per type)
 }
 
 var nsPool = []string{"User", "Group", "Doc", "Folder", "a-b", "a"}
@@ -176,7 +177,7 @@ func genConfig(r *rand.Rand, p EngProfile) []*namespace.Namespace {
 
 // genTuples generates a store biased to chains, diamonds, cycles and duplicates
 // over the declared relations.
-func genTuples(r *rand.Rand, nss []*namespace.Namespace) []Tup {
+func genTuples(r *rand.Rand, nss []*namespace.Namespace, conforming bool) []Tup {
 	n := r.Intn(24)
 	if r.Intn(10) == 0 {
 		n = 24 + r.Intn(30)
@@ -207,18 +208,21 @@ func genTuples(r *rand.Rand, nss []*namespace.Namespace) []Tup {
 	}
 	for i := 0; i < n; i++ {
 		var t Tup
-		if len(declared) > 0 && r.Intn(8) != 0 {
+		if len(declared) > 0 && (conforming || r.Intn(8) != 0) {
 			d := pick(r, declared)
 			// mostly tuples on plain relations
-			for tries := 0; tries < 3 && d.rel.SubjectSetRewrite != nil; tries++ {
+			for tries := 0; tries < 30 && d.rel.SubjectSetRewrite != nil; tries++ {
 				d = pick(r, declared)
+			}
+			if conforming && d.rel.SubjectSetRewrite != nil {
+				continue
 			}
 			t.NS, t.Rel = d.ns, d.rel.Name
 			t.Obj = r.Intn(nObj)
 			switch k := r.Intn(10); {
 			case k < 4 || len(d.rel.Types) == 0:
 				t.Sub = Sub{ID: r.Intn(nSub)}
-			case k < 9:
+			case k < 9 || conforming:
 				ty := pick(r, d.rel.Types)
 				t.Sub = Sub{IsSet: true, NS: ty.Namespace, Obj: r.Intn(nObj), Rel: ty.Relation}
 			default:
@@ -232,6 +236,9 @@ func genTuples(r *rand.Rand, nss []*namespace.Namespace) []Tup {
 			} else {
 				t.Sub = randSet()
 			}
+		}
+		if conforming && (t.Rel == "" || (t.NS == "")) {
+			continue
 		}
 		out = append(out, t)
 		if r.Intn(12) == 0 {
@@ -276,7 +283,7 @@ func genQuery(r *rand.Rand, nss []*namespace.Namespace, ts []Tup) Tup {
 func genEngCase(r *rand.Rand, p EngProfile) *EngCase {
 	c := &EngCase{PageSize: 100}
 	c.NSs = genConfig(r, p)
-	c.Tuples = genTuples(r, c.NSs)
+	c.Tuples = genTuples(r, c.NSs, p.Conforming || r.Intn(3) == 0)
 	c.Query = genQuery(r, c.NSs, c.Tuples)
 	c.Strict = r.Intn(3) == 0
 	if p.LimitsLoose && r.Intn(4) != 0 {
